@@ -14,7 +14,9 @@ Inductive req :=
 | QDelete (k : bytes) (rev : N)
 | QGet (k : bytes) (rev : N)
 | QList (a b : bytes) (rev limit : N)
-| QCompact (rev : N).
+| QCompact (rev : N)
+| QCount (a b : bytes)                               (* Count with EnableEtcdCompatibility on *)
+| QStream (a b : bytes) (rev : N).                   (* ListByStream(Enc(a,0), Enc(b,0), rev), drained *)
 
 Definition kvrev := (bytes * N)%type.                 (* value, mod revision *)
 
@@ -26,7 +28,10 @@ Inductive resp :=
 | PDelete (ok : bool) (hdr : N) (kv : option kvrev)
 | PGet (hdr : N) (kv : option kvrev)
 | PList (hdr : N) (kvs : list (bytes * bytes * N)) (more : bool)
-| PCompact (hdr : N) (err : bool).
+| PCompact (hdr : N) (err : bool)
+| PCount (hdr : N) (count : N)
+| PStream (kvs : list (bytes * bytes * N)) (err : bool)   (* all batches concatenated; the end marker carried an error *)
+| PHang.                                              (* no answer within the driver's watchdog: never produced by the programs *)
 
 (* proto.Event: type (CREATE 0, PUT 1, DELETE 2), Kv.Key, Kv.Value, Kv.Revision, Revision *)
 Definition event := (N * bytes * bytes * N * N)%type.
@@ -334,6 +339,32 @@ Definition q_list (st : bstate) (a b : bytes) (rev limit : N) : resp :=
         end
   end.
 
+(* Count (range.go:176-205, EnableEtcdCompatibility on): scanner.Count = the number of records a scan emits *)
+Definition q_count (st : bstate) (a b : bytes) : resp :=
+  let cur := k_rev st in
+  match check_compact_race (k_st st) cur false with
+  | (_, Some BPanic) => PPanic
+  | (_, Some _) => PErr
+  | (_, None) =>
+      match worker_run false cur 0 (k_st st) (encode a 0) (encode b 0) with
+      | None => PPanic
+      | Some (_, kvs) => PCount cur (N.of_nat (length kvs))
+      end
+  end.
+
+(* ListByStream (range.go:253-263) + scanner.RangeStream: an error of the scan travels in the end marker *)
+Definition q_stream (st : bstate) (a b : bytes) (rev : N) : resp :=
+  let req := if rev =? 0 then k_rev st else rev in
+  match check_compact_race (k_st st) req false with
+  | (_, Some BPanic) => PPanic
+  | (_, Some _) => PStream [] true
+  | (_, None) =>
+      match worker_run false req 0 (k_st st) (encode a 0) (encode b 0) with
+      | None => PPanic
+      | Some (_, kvs) => PStream kvs false
+      end
+  end.
+
 (* Compact (compact.go:18-113) *)
 Definition set_compact_record (s : a_state A) (revision : N) : a_state A * option berr * bool :=
   (* the boolean: the record was left alone because it is newer *)
@@ -392,6 +423,8 @@ Definition q_step (st : bstate) (q : req) : bstate * resp * list event :=
   | QGet k rev => (st, q_get st k rev, [])
   | QList a b rev limit => (st, q_list st a b rev limit, [])
   | QCompact rev => let '(st', r) := q_compact st rev in (st', r, [])
+  | QCount a b => (st, q_count st a b, [])
+  | QStream a b rev => (st, q_stream st a b rev, [])
   end.
 
 (* a panic ends the history: the request never returns *)
